@@ -194,6 +194,7 @@ impl Property for C09 {
     }
 
     fn generate(&self, rng: &mut Rng, _tier: Tier) -> Case {
+        let scale_case = begin_case(rng);
         let mut opts = GenOpts::swarm(rng);
         opts.dropout = true;
         opts.max_hidden = rng.range(1, 4);
@@ -208,18 +209,18 @@ impl Property for C09 {
                 }
             }
         }
-        let n = rng.range(1, 8);
+        let n = if scale_case { rng.range(40, 150) } else { rng.range(1, 8) };
         let train = gen_data(rng, &net, n);
-        let v = rng.range(1, 6);
+        let v = if scale_case { rng.range(65, 200) } else { rng.range(1, 6) };
         let val = gen_data(rng, &net, v);
         let batch = rng.range(1, n + 1);
         let mut ops = Vec::new();
-        let len = rng.range(1, 5);
+        let len = if scale_case { rng.range(1, 2) } else { rng.range(1, 5) };
         for _ in 0..len {
             let print = if rng.chance(0.3) { Some(rng.pick(&[1i32, 2, 3, 5])) } else { None };
             ops.push(match rng.below(7) {
                 0 | 1 | 2 => Op::Learn {
-                    epochs: rng.range(1, 6) as i32,
+                    epochs: if scale_case { rng.range(4, 10) as i32 } else { rng.range(1, 6) as i32 },
                     with_val: true,
                     tol: if rng.chance(0.5) { Some(rng.range(1, 3) as i32) } else { None },
                     print,
